@@ -37,6 +37,15 @@ type Plan struct {
 	DelaysUs []int64 `json:"delays_us,omitempty"`
 }
 
+// WritePlan says how a destination (standard output, an -o file) takes bytes.
+type WritePlan struct {
+	// ErrNo set: after ErrAfter bytes have been accepted every further write
+	// fails with the errno (ENOSPC: the disk is full; EIO; EDQUOT as ENOSPC).
+	// A write straddling the limit is short: the bytes that fit are written.
+	ErrNo    string `json:"errno,omitempty"`
+	ErrAfter int    `json:"err_after"`
+}
+
 type Stream struct {
 	Data []byte `json:"data"`
 	Plan Plan   `json:"plan"`
@@ -59,6 +68,8 @@ type FileSpec struct {
 	CreateErr string `json:"create_err,omitempty"`
 	// RenameErr: os.Rename onto this path fails with the errno (EXDEV, EACCES).
 	RenameErr string `json:"rename_err,omitempty"`
+	// WritePlan: faults of the write side when the path is created/opened for writing.
+	WritePlan *WritePlan `json:"write_plan,omitempty"`
 	// Pipe: the path is a FIFO (process substitution): Stat reports size 0 and
 	// a named-pipe mode, the bytes only arrive through Read.
 	Pipe bool `json:"pipe,omitempty"`
@@ -68,6 +79,7 @@ type FileSpec struct {
 type Step struct {
 	Argv        []string             `json:"argv"`
 	Stdin       *Stream              `json:"stdin,omitempty"`
+	Stdout      *WritePlan           `json:"stdout,omitempty"` // faults of standard output (explicit writers only)
 	Files       map[string]*FileSpec `json:"files,omitempty"`
 	Seed        uint64               `json:"seed"`
 	MapPolicy   string               `json:"map_policy,omitempty"`   // sorted|reverse|rotate|shuffle
